@@ -64,9 +64,9 @@ Record mstate := { m_h : hstate; m_c0 : cache; m_c1 : cache }.
 Definition observe (m : mstate) (reqs : list string) (d : string) : mstate * pername :=
   let st := hfs (m_h m) in
   (* the glob results are shared between the calls (q_latest / q_recent / q_find are these compositions) *)
-  let gl := glob loc st (dirname dh d) (pat_latest d None) in
-  let gt := glob loc st (dirname dh d) (pat_latest d (Some today)) in
-  let ga := glob loc st (dirname dh d) (pat_all d) in
+  let gl := glob loc st (dirpat dh d) (pat_latest d None) in
+  let gt := glob loc st (dirpat dh d) (pat_latest d (Some today)) in
+  let ga := glob loc st (dirpat dh d) (pat_all d) in
   let '(cw, latW) := latest_of loc (hcache (m_h m)) st gl in
   let '(c0, lat0) := latest_of loc (m_c0 m) st gl in
   let '(c1, lat1) := latest_of loc (m_c1 m) st gt in
